@@ -183,9 +183,12 @@ def string_lemma(run):
 def module_level(run):
     combos = [(w, a, fz) for w in ("qint8", "qfloat8_e4m3fn", "qint4", "qint2") for a in (None, "qint8") for fz in (True, False)]
     for weights, act, frozen in combos:
-        for target in ("default-quantized", "same-quantized", "same-quantized-frozen", "same-quantized/source-streamlined"):
+        for target in ("default-quantized", "same-quantized", "same-quantized-frozen", "same-quantized/source-streamlined", "same-quantized-warmed-up"):
             if target == "same-quantized/source-streamlined" and act is None:
                 continue
+            if target == "same-quantized-warmed-up" and (frozen or act is not None or weights in ("qint4", "qint2")):
+                # (group-wise low-bit weights: two evaluations of group() introduce distinct uninterpreted index maps - not decided here)
+                continue   # a target that already evaluated its (dynamic) quantized weight under no_grad before the load
             if target == "same-quantized-frozen" and not frozen:
                 continue
             inst = {"level": "module", "weights": weights, "activations": act, "frozen": frozen, "target": target}
@@ -220,10 +223,19 @@ def module_level(run):
                     tgt = E2.call(QL, [F, O], {"weights": qt(weights), "activations": qt(act) if act else None})
                 if target == "same-quantized-frozen":
                     E2.call(E2.getattr(tgt, "freeze"), [], {})
+                if target == "same-quantized-warmed-up":
+                    E2.ps["grad_enabled"] = False
+                    E2.getattr(tgt, "qweight")
+                    E2.ps["grad_enabled"] = True
                 work = dict(sd)
                 missing, unexpected, errors = [], [], []
                 E2.call(E2.getattr(tgt, "_load_from_state_dict"), [work, "layer.", {}, True, missing, unexpected, errors], {})
                 sd2 = E2.call(E2.getattr(tgt, "state_dict"), [], {"prefix": "layer."})
+                if target == "same-quantized-warmed-up":
+                    E2.ps["grad_enabled"] = False
+                    src.fields["__qw_after"] = E2.getattr(src, "qweight")
+                    tgt.fields["__qw_after"] = E2.getattr(tgt, "qweight")
+                    E2.ps["grad_enabled"] = True
                 return src, saved, tgt, dict(sd2), work, (missing, unexpected, errors)
 
             try:
@@ -278,6 +290,17 @@ def module_level(run):
                     gs = E.eq(src.fields["weight_group_size"], tgt.fields["weight_group_size"])
                     nm_ = "C10/requantize-path" if target == "default-quantized" else "C10"
                     run.add(f"{nm_}/unfrozen-weight-group-size-restored[{tag}]/path{pi}", r.hyps, gs if not isinstance(gs, bool) else z3.BoolVal(gs), "property", inst, replay=rp)
+                if target == "same-quantized-warmed-up":
+                    # the weights used by inference after the load are those of the source (no stale derived state survives the load)
+                    qa, qb = src.fields.pop("__qw_after"), tgt.fields.pop("__qw_after")
+                    okq = is_wrapper(qa) and is_wrapper(qb) and qa.cls is qb.cls
+                    run.add(f"C10/inference-weight-after-load-class[{tag}]/path{pi}", r.hyps, z3.BoolVal(bool(okq)), "property", inst, replay=rp)
+                    if okq:
+                        from qvc.tm_tensor import reduction_facts
+                        for fld in ("_scale",) + (("_zeropoint",) if "_zeropoint" in qa.fields else ("_data",)):
+                            g = same_tensor(qa.fields[fld], qb.fields[fld])
+                            facts_ = reduction_facts(E) + E.drain() + list(E.ps.get("lazy_facts", []))
+                            run.add(f"C10/inference-weight-after-load-equals-the-source's:{fld}[{tag}]/path{pi}", r.hyps + facts_, g, "property", inst, replay=rp, timeout=60)
                 # saving again gives an equal state_dict (keys + strings; tensors bit-identical)
                 ks = set(saved) == set(sd2)
                 run.add(f"C10/saving-again-same-keys[{tag}]/path{pi}", r.hyps, z3.BoolVal(ks), "property", inst, {"first": sorted(saved), "second": sorted(sd2)}, replay=rp)
@@ -296,24 +319,26 @@ def module_level(run):
 def requantize_models(run):
     """requantize(float_model, state_dict): the whole-model entry point, on small module trees built by the real quantize()."""
     from props.C08 import container, engine as engine8, mk_linear, mk_ln
-    for act in (None, "qint8"):
-        for weights in ("qint8", "qint4"):
-            inst = {"level": "model", "entry": "requantize", "weights": weights, "activations": act}
-            run.count_instance(**{"rq_weights": weights, "rq_act": act})
+    for act, weights, frozen in [(a_, w_, f_) for a_ in (None, "qint8") for w_ in ("qint8", "qint4") for f_ in (True, False)]:
+        if True:
+            inst = {"level": "model", "entry": "requantize", "weights": weights, "activations": act, "frozen": frozen}
+            run.count_instance(**{"rq_weights": weights, "rq_act": act, "rq_frozen": frozen})
             E = engine8(run)
             F = z3.Int("in_a")
 
-            def prog(E2, weights=weights, act=act):
+            def prog(E2, weights=weights, act=act, frozen=frozen):
                 qt = E2.load_module(OC.QTYPE).env.lookup
                 src = container(E2, fc=mk_linear(E2, "a"), norm=mk_ln(E2, "c"))
                 E2.call(E2.get("optimum/quanto/quantize.py::quantize"), [src], {"weights": qt(weights), "activations": qt(act) if act else None})
-                E2.call(E2.get("optimum/quanto/quantize.py::freeze"), [src], {})
+                if frozen:
+                    E2.call(E2.get("optimum/quanto/quantize.py::freeze"), [src], {})
                 sd = E2.call(E2.getattr(src, "state_dict"), [], {})
                 tgt = container(E2, fc=mk_linear(E2, "a"), norm=mk_ln(E2, "c"))
                 E2.call(E2.get("optimum/quanto/quantize.py::requantize"), [tgt, dict(sd)], {})
-                return src, sd, tgt
+                sd2 = E2.call(E2.getattr(tgt, "state_dict"), [], {})
+                return src, sd, tgt, sd2
 
-            tag = f"w={weights}/a={act}"
+            tag = f"w={weights}/a={act}/{'frozen' if frozen else 'unfrozen'}"
             try:
                 res = E.explore(Builtin("c10r", prog), lambda E2: ([], {}), name="C10.requantize")
             except Unsupported as u:
@@ -328,7 +353,24 @@ def requantize_models(run):
                 if r.outcome != "return":
                     run.add(f"{fam}/requantize-does-not-raise[{tag}]/path{pi}", r.hyps, z3.BoolVal(False), "property", inst, {"outcome": repr(r.value)[:300]}, replay=rp)
                     continue
-                src, sd, tgt = r.value
+                src, sd, tgt, sd2 = r.value
+                E.focus(r)
+                run.add(f"C10/requantize-then-save-gives-the-same-keys[{tag}]/path{pi}", r.hyps, z3.BoolVal(sorted(sd.keys()) == sorted(sd2.keys())), "property", inst,
+                        {"loaded": sorted(sd.keys()), "saved_again": sorted(sd2.keys())}, replay=rp)
+                for k in sorted(set(sd.keys()) & set(sd2.keys())):
+                    va, vb = sd[k], sd2[k]
+                    if isinstance(va, STensor) and isinstance(vb, STensor):
+                        run.add(f"C10/requantize-then-save-gives-equal-entries:{k}[{tag}]/path{pi}", r.hyps, same_tensor(va, vb), "property", inst, replay=rp)
+                    elif not isinstance(va, (STensor, Obj)) and not isinstance(vb, (STensor, Obj)):
+                        # strings: str() of a symbolic value is known only through its value (A-SER)
+                        ua = va.value if isinstance(va, SymStr) else va
+                        ub = vb.value if isinstance(vb, SymStr) else vb
+                        if isinstance(va, SymStr) != isinstance(vb, SymStr):
+                            e_ = False
+                        else:
+                            e_ = E.eq(list(ua) if isinstance(ua, tuple) else ua, list(ub) if isinstance(ub, tuple) else ub)
+                        facts_ = E.drain() + list(E.ps.get("lazy_facts", []))
+                        run.add(f"C10/requantize-then-save-gives-equal-entries:{k}[{tag}]/path{pi}", r.hyps + facts_, z3.BoolVal(e_) if isinstance(e_, bool) else e_, "property", inst, replay=rp)
                 a, b = src.fields["_modules"]["fc"], tgt.fields["_modules"]["fc"]
                 ok = isinstance(b, Obj) and b.cls is a.cls and b.fields.get("weight_qtype") is a.fields.get("weight_qtype") and \
                     b.fields.get("activation_qtype") is a.fields.get("activation_qtype")
@@ -509,13 +551,21 @@ def replay_requantize(model, seed, inst):
     mk = lambda: torch.nn.Sequential(torch.nn.Linear(16, 8), torch.nn.LayerNorm(8))
     src = mk()
     quantize(src, weights=qtypes[inst["weights"]], activations=qtypes[inst["activations"]] if inst["activations"] else None)
-    freeze(src)
+    if inst.get("frozen", True):
+        freeze(src)
     sd = src.state_dict()
     tgt = mk()
     try:
         requantize(tgt, sd)
     except Exception as e:
         return {"what": f"requantize raises {type(e).__name__}: {str(e)[:200]}"}
+    sd2 = tgt.state_dict()
+    if sorted(sd.keys()) != sorted(sd2.keys()):
+        return {"what": "saving the requantized model again gives other keys", "only_loaded": sorted(set(sd) - set(sd2))[:6], "only_saved_again": sorted(set(sd2) - set(sd))[:6]}
+    for k in sd:
+        a, b = sd[k], sd2[k]
+        if isinstance(a, torch.Tensor) and type(a) is torch.Tensor and not (a.shape == b.shape and a.dtype == b.dtype and torch.equal(a, b)):
+            return {"what": f"entry '{k}' differs after requantize + state_dict"}
     return None
 
 
@@ -523,6 +573,6 @@ def replay_file(path):
     import json
     rec = json.load(open(path))
     inst = rec["instance"]
-    r = replay_tensor({}, 0, inst) if inst.get("level") == "tensor" else replay_module({}, 0, inst) if inst.get("level") == "module" else None
+    r = replay_tensor({}, 0, inst) if inst.get("level") == "tensor" else replay_module({}, 0, inst) if inst.get("level") == "module" else replay_requantize({}, 0, inst) if inst.get("level") == "model" else None
     print(json.dumps(r, indent=1, default=str))
     return 1 if r else 0
